@@ -150,7 +150,7 @@ def _run(scn, res, wd):
         ref = final_state(st, snap, is128)
         bump(res, 'sim_tstates', st['regs'][25])
         bump(res, 'executions')
-        h = hashlib.sha256(out.encode())
+        h = hashlib.sha256(out.replace(wd, '<wd>').encode())
         h.update(repr(sorted((k, v if not isinstance(v, bytes) else hashlib.sha256(v).hexdigest()) for k, v in ref.items())).encode())
         # bytes of the data blocks' load ranges in the reference
         def loaded(snapx):
